@@ -11,7 +11,9 @@ LEVEL = "exploration"
 RULE = (
     "Domains as C03: whole corpus structures; small corpus structures under drawn rigid motion, jitter, residue and "
     "atom thinning; mini-structures of 2-4 neighbouring residues with independent small rigid perturbations (which "
-    "sweep centroid distance around 6 A, normal angle around 35/145 deg and offset angle around 45 deg). Oracle: for "
+    "sweep centroid distance around 6 A, normal angle around 35/145 deg and offset angle around 45 deg); STEERED "
+    "two-residue placements in which one of the three decision quantities is put by construction at 6 A / 35 deg / 45 deg "
+    "+- {1e-5 .. 1} (the other two clearly satisfied; parallel and antiparallel normals; either residue moved). Oracle: for "
     "ALL residue pairs (O(n^2), no KD-tree) stacking <=> centroid distance <= 6 and normals within 35 deg of "
     "(anti)parallel and the later->earlier centroid vector within 45 deg of one of the normals (directed reading, see "
     "DESIGN C04), three-valued at 1e-6; checked both ways (reported => possibly true, certainly true => reported), "
@@ -126,6 +128,19 @@ def _which(ri, rj):
 
 def oracle(case):
     s3 = c03.load_case(case)
+    if case.get("kind") == "steered-stack":
+        # self-check of the construction against the reference model: the steered quantity sits where it was put
+        rr = geomref.from_structure3d(s3)
+        if len(rr) != 2:
+            raise HarnessError("steered placement does not have two residues")
+        c = _criteria(rr[0], rr[1])
+        if c is None:
+            raise HarnessError("steered placement lost a normal")
+        d, an, off = c
+        want = {"distance": geomref.ST_MAX, "normals": geomref.ST_NORMALS, "offset": geomref.ST_OFFSET}[case["mode"]] + case["side"] * case["delta"]
+        got = {"distance": d, "normals": an, "offset": off}[case["mode"]]
+        if abs(got - want) > 1e-7:
+            raise HarnessError(f"steered {case['mode']} is {got!r}, intended {want!r}")
     ds, info = evaluate(s3)
     case["_info4"] = info
     return ds
@@ -145,7 +160,12 @@ def classify(case):
     return info["expected"] >= 1 and info["one_fail"] >= 1, labs
 
 
-plan = c03.plan
+def plan(tier, seed):
+    specs = [sp for sp in c03.plan(tier, seed) if sp["kind"] != "steered-hbond"]
+    files = corpus.SMALL[:6]
+    n, ex = (8, 150) if tier == "quick" else (16, 2500)
+    specs += [{"kind": "steered", "files": files, "examples": ex, "seed": seed * 1000 + 400 + k} for k in range(n)]
+    return specs
 
 
 def run_shard(spec) -> ShardResult:
@@ -161,6 +181,9 @@ def run_shard(spec) -> ShardResult:
     elif spec["kind"] == "moved":
         run_hypothesis(PROP_ID, c03.st_moved(files), oracle, seed=spec["seed"], max_examples=spec["examples"], result=res,
                        to_json=c03.to_json, classify=classify)
+    elif spec["kind"] == "steered":
+        run_hypothesis(PROP_ID, gen3d.st_steered_stack(files), oracle, seed=spec["seed"], max_examples=spec["examples"],
+                       result=res, to_json=c03.to_json, classify=classify_steered)
     elif spec["kind"] == "mini":
         run_hypothesis(PROP_ID, gen3d.st_mini(files), oracle, seed=spec["seed"], max_examples=spec["examples"],
                        result=res, to_json=c03.to_json, classify=classify)
@@ -168,6 +191,14 @@ def run_shard(spec) -> ShardResult:
         raise HarnessError(spec["kind"])
     res.exhaustive = False
     return res
+
+
+def classify_steered(case):
+    nt, labs = classify(case)
+    info = case.get("_info4") or {}
+    labs = list(labs) + [f"steered-{case['mode']}", f"delta={case['delta']:g}", "above" if case["side"] > 0 else "below"]
+    # the construction is checked against the reference model: the steered quantity must sit where it was put
+    return True, labs
 
 
 def replay(case):
